@@ -128,12 +128,13 @@ func taskfile(c Cfg) string {
 		if c.Prompt {
 			b.WriteString("    prompt: 'go?'\n")
 		}
-		b.WriteString("    cmds:\n      - echo 1 >> \"$TRACE\"\n      - task: pre\n      - test ! -f \"$CTL/fail1\"\n      - test ! -f \"$CTL/kill1\" || sh -c 'kill -KILL $PPID'\n")
+		b.WriteString("    cmds:\n      - echo 1 >> \"$TRACE\"\n      - task: pre\n      - test ! -f \"$CTL/cancelsib\" || sleep 1\n      - test ! -f \"$CTL/fail1\"\n      - test ! -f \"$CTL/kill1\" || sh -c 'kill -KILL $PPID'\n")
 		if c.Gen {
 			b.WriteString("      - touch out.gen\n")
 		}
 		b.WriteString("      - echo 2 >> \"$TRACE\"\n      - test ! -f \"$CTL/fail2\"\n      - test ! -f \"$CTL/kill2\" || sh -c 'kill -KILL $PPID'\n")
 	}
+	fmt.Fprintf(&b, "  wrap:\n    deps: ['%s', sib]\n  sib:\n    cmds:\n      - sleep 0.3; exit 1\n", t)
 	b.WriteString("  pre:\n    preconditions:\n      - test ! -f \"$CTL/failpre\"\n")
 	b.WriteString("  d:\n    dir: ./newdir\n    cmds:\n      - echo 3 >> \"$TRACE\"\n")
 	return b.String()
@@ -234,6 +235,9 @@ func Execute(h *History) error {
 				args = []string{u}
 			case "fail1", "fail2", "failpre", "kill1", "kill2":
 				args = []string{t}
+				ctlFile = filepath.Join(ctl, s.Mode)
+			case "cancelsib":
+				args = []string{"wrap"}
 				ctlFile = filepath.Join(ctl, s.Mode)
 			case "prompt":
 				args = []string{t}
@@ -355,7 +359,7 @@ func (w *world) apply(s Step, c Cfg) {
 var fileOps = []Step{{Op: "edit", F: "a"}, {Op: "touch", F: "a"}, {Op: "add", F: "b"}, {Op: "addold", F: "b"}, {Op: "rm", F: "a"},
 	{Op: "ren", F: "a", G: "b"}, {Op: "edit", F: "x"}, {Op: "touch", F: "x"}, {Op: "rm", F: "x"}, {Op: "rmgen"}, {Op: "flip"}}
 
-var allModes = []string{"run", "other", "fail1", "fail2", "failpre", "kill1", "kill2", "prompt", "force", "dry", "status", "list", "listjson", "summary", "drydir"}
+var allModes = []string{"run", "other", "fail1", "fail2", "failpre", "cancelsib", "kill1", "kill2", "prompt", "force", "dry", "status", "list", "listjson", "summary", "drydir"}
 
 func inv(m string) Step { return Step{Op: "inv", Mode: m} }
 
